@@ -859,4 +859,107 @@ theorem finishCall_refines (c : Cfg) (s : Spec.State) (t : Tbl) (k cid : Nat) (i
             simp only [hd, decide_false, Bool.false_and, Bool.false_eq_true, ↓reduceIte]
             exact ⟨MapEq.of_eq hs2m.symm, by first | rfl | trivial⟩
 
+/-! ### explicit deadlines -/
+
+theorem mapEq_put_same (m : List (Nat × Entry)) (k : Nat) (e : Entry) (h : Spec.find m k = some e) :
+    MapEq m (Spec.put m k e) := by
+  intro j
+  by_cases hj : j = k
+  · subst hj; rw [find_put, h]
+  · rw [find_put_other _ _ _ _ hj]
+
+/-- **SetExpiresAfter** -/
+theorem setExpiresAfter_refines (c : Cfg) (s : Spec.State) (t : Tbl) (k : Nat) (d : Int) (hs : s.m = absT t)
+    (hnow : -4611686018427387904 < s.now ∧ s.now < 4611686018427387904)
+    (hwf : ∀ o, lookup t k = some o → NodeOk k o) :
+    MapEq (absT (setExpiresAfter (cfgOf c) t k d s.now)) (Spec.setExpiresAfter c s k d).m := by
+  have hlive := live_abs s t k hs
+  unfold setExpiresAfter Spec.setExpiresAfter
+  simp only [cfgOf]
+  by_cases hw : c.withExpiry = true
+  · by_cases hd : d > 0
+    · have hnd : ¬ d ≤ 0 := by omega
+      simp only [hw, Bool.not_true, Bool.false_or, hnd, decide_false, Bool.false_eq_true, ↓reduceIte, Bool.true_and, hd, decide_true]
+      cases hl : lookup t k with
+      | none =>
+        rw [hl] at hlive
+        simp only [Option.map_none, Option.filter_none] at hlive
+        simp only [hlive]
+        exact MapEq.of_eq hs.symm
+      | some n =>
+        rw [hl] at hlive
+        obtain ⟨_, hmax, _, _⟩ := hwf n hl
+        have hvis := visible_iff_live n s.now
+        simp only [Option.map_some] at hlive
+        cases hx : hasExpired n s.now
+        · have hlv : (absN n).liveAt s.now = true := by rw [← hvis, hx]; rfl
+          have hlt : s.now < n.exp := by unfold hasExpired at hx; simp at hx; exact hx
+          simp only [hlive, Option.filter, hlv, hx, ↓reduceIte, Bool.false_eq_true]
+          by_cases hc : d = durationTo n.exp s.now
+          · have hkeep := keep_or_set n.exp s.now d hnow hmax hd (by omega) hc.symm
+            have hb : (d != durationTo n.exp s.now) = false := by rw [← hc]; simp
+            simp only [hb, Bool.false_eq_true, ↓reduceIte]
+            have hf : Spec.find s.m k = some (absN n) := by rw [hs, find_absT, hl]; rfl
+            have : ({ absN n with exp := satAdd s.now d } : Entry) = absN n := by
+              rw [← hkeep]; rfl
+            rw [this, ← hs]
+            exact mapEq_put_same s.m k (absN n) hf
+          · have hb : (d != durationTo n.exp s.now) = true := by simpa using hc
+            simp only [hb, ↓reduceIte]
+            apply MapEq.of_eq
+            rw [← put_absT, hs, deadlineAfter_eq_satAdd]
+            rfl
+        · have hlv : (absN n).liveAt s.now = false := by rw [← hvis, hx]; rfl
+          simp only [hlive, Option.filter, hlv, hx, ↓reduceIte, Bool.false_eq_true]
+          exact MapEq.of_eq hs.symm
+    · have hle : d ≤ 0 := by omega
+      simp only [hw, hle, decide_true, Bool.or_true, ↓reduceIte, hd, decide_false, Bool.and_false, Bool.false_eq_true]
+      exact MapEq.of_eq hs.symm
+  · have hw' : c.withExpiry = false := by simpa using hw
+    simp only [hw', Bool.not_false, Bool.true_or, ↓reduceIte, Bool.false_and, Bool.false_eq_true]
+    exact MapEq.of_eq hs.symm
+
+/-- **SetRefreshableAfter** (the entry physically present: an expired-but-unswept entry is updated too, on both sides) -/
+theorem setRefreshableAfter_refines (c : Cfg) (s : Spec.State) (t : Tbl) (k : Nat) (d : Int) (hs : s.m = absT t)
+    (hnow : -4611686018427387904 < s.now ∧ s.now < 4611686018427387904)
+    (hwf : ∀ o, lookup t k = some o → NodeOk k o) :
+    MapEq (absT (setRefreshableAfter (cfgOf c) t k d s.now)) (Spec.setRefreshableAfter c s k d).m := by
+  have hphys := phys_abs s t k hs
+  unfold setRefreshableAfter Spec.setRefreshableAfter
+  simp only [cfgOf]
+  by_cases hw : c.withRefresh = true
+  · by_cases hd : d > 0
+    · have hnd : ¬ d ≤ 0 := by omega
+      simp only [hw, Bool.not_true, Bool.false_or, hnd, decide_false, Bool.false_eq_true, ↓reduceIte, Bool.true_and, hd, decide_true]
+      cases hl : lookup t k with
+      | none =>
+        rw [hl] at hphys
+        simp only [Option.map_none] at hphys
+        simp only [hphys]
+        exact MapEq.of_eq hs.symm
+      | some n =>
+        rw [hl] at hphys
+        obtain ⟨_, _, hlow, hmax⟩ := hwf n hl
+        simp only [Option.map_some] at hphys
+        simp only [hphys]
+        by_cases hc : durationTo n.ref s.now = d
+        · have hkeep := keep_or_set n.ref s.now d hnow hmax hd hlow hc
+          simp only [hc, bne_self_eq_false, Bool.false_eq_true, ↓reduceIte]
+          have hf : Spec.find s.m k = some (absN n) := by rw [hs, find_absT, hl]; rfl
+          have : ({ absN n with ref := satAdd s.now d } : Entry) = absN n := by
+            rw [← hkeep]; rfl
+          rw [this, ← hs]
+          exact mapEq_put_same s.m k (absN n) hf
+        · have hb : (durationTo n.ref s.now != d) = true := by simpa using hc
+          simp only [hb, ↓reduceIte]
+          apply MapEq.of_eq
+          rw [← put_absT, hs, deadlineAfter_eq_satAdd]
+          rfl
+    · have hle : d ≤ 0 := by omega
+      simp only [hw, hle, decide_true, Bool.or_true, ↓reduceIte, hd, decide_false, Bool.and_false, Bool.false_eq_true]
+      exact MapEq.of_eq hs.symm
+  · have hw' : c.withRefresh = false := by simpa using hw
+    simp only [hw', Bool.not_false, Bool.true_or, ↓reduceIte, Bool.false_and, Bool.false_eq_true]
+    exact MapEq.of_eq hs.symm
+
 end OtterVerif.Proofs.TableRefine
